@@ -171,6 +171,10 @@ def _remember(r, op, result):
         if ret is None:
             ret = r._rv_ret = {}
             r._rv_nret = {}
+        if op in ret and ret[op] is result and result is not None:
+            # the very object noted a moment ago, coming up through a second hooked layer of ONE public call (an
+            # override that delegates to the method it overrides, both hooked): one call, noted once (harmless C14-R9)
+            return
         ret[op] = result
         r._rv_nret[op] = r._rv_nret.get(op, 0) + 1
     except Exception:
